@@ -15,6 +15,7 @@ EXPLANATION = ("Necessary shape conditions, decided on every path: (R10.1) in ea
                "MAX_STREAMS and is filled once with 0..MAX_STREAMS; (R10.4) every create_stream* wraps exactly the id it obtained from create_stream_id; (R10.5) a request to end one "
                "stream cancels its id once, before it waits -- never from inside the loop that runs until the id is vacant again (a vacant id may already belong to a new listener). Every channel's running_streams_count forwards to the manager, which answers a load of used_streams_count.")
 EXPLANATION += ' R10.2 also requires keep_streams_running[new id] to be set to true for the id just taken.'
+EXPLANATION += " R10.1 also requires the channel's own consume -- which the drain loop asks -- to ask its queue on every path; (R10.7) cursor discipline of the live-list rebuild: the first entry lands on index 0, every entry store is paired with exactly one cursor bump, and the sentinel padding starts at the first unwritten index (cursor+1 when the bump precedes the store, cursor when it follows) -- no stale id behind the last live entry, no live entry overwritten."
 ASSUMPTIONS = ["the rebuild algorithm inside sync_vacant_and_used_streams (live list = complement of the vacant FIFO) is covered by the unit tests' sequential histories, not re-proved here",
                "'all of them if it keeps polling' is the delivery / wake-up behaviour of C03 / C04"]
 
